@@ -14,12 +14,13 @@ REPO = os.environ.get('RNGS_REPO', '/repo')
 
 
 class H:
-    def __init__(self, name, props, crate='ext', tier='quick', bounded=None, flags=(), timeout=900, note='', qual=None):
+    def __init__(self, name, props, crate='ext', tier='quick', bounded=None, flags=(), timeout=900, note='', qual=None, proof_only=False):
         self.name = name
         self.qual = qual            # fully qualified harness path (module::name); set by register() when None
         self.props = props.split()
         self.crate = crate          # 'ext' or a /repo package name (in-crate harness behind the rngs_verif hook)
-        self.tier = tier
+        self.tier = tier              # quick | thorough | fallback (only run by the fallback layer)
+        self.proof_only = proof_only  # abstracted (uninterpreted multiplication): good for proving, slow at refuting; skipped by the fallback layer
         self.bounded = bounded
         self.flags = list(flags)
         self.timeout = timeout
@@ -119,7 +120,14 @@ def kani_part(setname, tier='quick', prop=None, stop_on_failure=False, only=None
 
 def _kani_part(setname, tier='quick', prop=None, stop_on_failure=False, only=None):
     pr = PartResult('kani:' + setname)
-    hs = [h for h in SETS[setname] if (tier == 'thorough' or h.tier == 'quick') and (prop is None or prop in h.props)]
+    if stop_on_failure:
+        # fallback mode: the question is "is there a failing input"
+        sel = lambda h: not h.proof_only
+    elif tier == 'thorough':
+        sel = lambda h: h.tier in ('quick', 'thorough')
+    else:
+        sel = lambda h: h.tier == 'quick'
+    hs = [h for h in SETS[setname] if sel(h) and (prop is None or prop in h.props)]
     if only == 'xorshift':
         hs = [h for h in hs if h.name.endswith('xorshift')]
     elif only == 'xoshiro':
@@ -210,7 +218,9 @@ register('rc_glue', [
     H('rc_try_from_rng_default_16', 'C09'),
     H('rc_try_from_rng_default_32', 'C09'),
     H('rc_try_from_rng_default_64', 'C09'),
-])
+] + [H('rc_%sfrom_rng_%s' % (t, n), 'C08 C09' if not t else 'C09', note='%s::%sfrom_rng: the rand_core default applies (one fill_bytes of the seed length, then from_seed)' % (n, t))
+     for n in ('splitmix64', 'xoroshiro64starstar', 'xoroshiro128plusplus', 'xoroshiro128starstar', 'xoshiro128plus', 'xoshiro128plusplus', 'xoshiro128starstar',
+               'xoshiro256plus', 'xoshiro256starstar', 'xoshiro512plusplus', 'xoshiro512starstar') for t in ('', 'try_')])
 register('blockrng', [
     H('blockrng_next_u32', 'C05 C02 C03 C14', note='BlockRng::next_u32: next stream word, refill exactly at the block boundary (any read position, arbitrary block contents)'),
     H('blockrng_next_u64', 'C05 C14', note='BlockRng::next_u64 == (second << 32) | first, incl. the straddling cases'),
@@ -232,8 +242,8 @@ register('hc128_incrate', [
 for _p, _c in (('isaac', 'IsaacCore'), ('isaac64', 'Isaac64Core')):
     register(_p + '_incrate', [
         H(_p + '_from_seed_layout', 'C03 C09', crate='rand_isaac', note=_c + '::from_seed: LE seed words in the first slots, zeros elsewhere, two passes (recording init stub)'),
-        H(_p + '_from_rng_layout', 'C09', crate='rand_isaac', tier='thorough', note=_c + '::from_rng (unsafe raw-parts): one fill_bytes of the whole slot array, LE words, two passes', timeout=2400),
-        H(_p + '_try_from_rng', 'C09', crate='rand_isaac', tier='thorough', note=_c + '::try_from_rng: same on success; the source error and no generator on failure', timeout=2400),
+        H(_p + '_from_rng_layout', 'C09', crate='rand_isaac', note=_c + '::from_rng (unsafe raw-parts): one fill_bytes of the whole slot array, LE words, two passes', timeout=2400),
+        H(_p + '_try_from_rng', 'C09', crate='rand_isaac', note=_c + '::try_from_rng: same on success; the source error and no generator on failure', timeout=2400),
         H(_p + '_core_debug_is_constant', 'C17', crate='rand_isaac', tier='thorough', timeout=1800, note='{:?} / {:#?} of an arbitrary core == "%s {}"' % _c),
     ], module=_p + '::rngs_verif_harness')
 register('seeding', [
@@ -270,7 +280,12 @@ for _p in ('isaac', 'isaac64'):
         H(_p + '_core_serde_roundtrip', 'C11', crate='rand_isaac', tier='thorough', timeout=2400, flags=['--features', 'serde'], qual=_p + '::rngs_verif_harness::' + _p + '_core_serde_roundtrip',
           note='the ISAAC core in an arbitrary state (259 symbolic words) through derive output + isaac_array_serde (token format): restored == original'),
     ]
-SETS['api'] = [H('api_fill_' + n, 'C05 C14 C18', tier='thorough', timeout=1800, qual='api::api_fill_' + n,
+_FILL = ['xoshiro128starstar', 'xoshiro256plusplus', 'xoroshiro128plusplus', 'xorshift', 'xoroshiro128plus',
+         'xoroshiro128starstar', 'xoshiro128plus', 'xoshiro128plusplus', 'xoshiro256plus', 'xoshiro256starstar', 'xoshiro512plus', 'xoshiro512plusplus', 'xoshiro512starstar']
+SETS['api'] = [H('api_fillcex_' + n, 'C05 C14 C18', tier='fallback', timeout=1200, qual='api::api_fillcex_' + n,
+                 bounded='n <= 20 bytes, arbitrary state', note='as api_fill_%s on the real multiplication (refutation only: fallback layer)' % n)
+               for n in _FILL] + SETS['api']
+SETS['api'] = [H('api_fill_' + n, 'C05 C14 C18', tier='thorough', timeout=1800, qual='api::api_fill_' + n, proof_only=True,
                  bounded='n <= 20 bytes (every tail length after 0, 1 and 2 full words), arbitrary state',
                  note='%s::fill_bytes(n) == n/8 next_u64, then one next_u64 / next_u32 truncated; generator left where the equivalent calls leave it' % n)
                for n in ['xoshiro128starstar', 'xoshiro256plusplus', 'xoroshiro128plusplus', 'xorshift', 'xoroshiro128plus',
